@@ -288,6 +288,13 @@ func (f *fetcher) getFromCacheOrFetch(req *http.Request, key cache.CacheKey, cli
 	return fetch, nil
 }
 
+// Reports whether err was caused by the cache (store refused or failed, entry gone before a 304
+// could renew it) rather than by the origin. The origin answered such a request successfully, so
+// the client must still get that answer: the caller falls back to a direct upstream fetch.
+func isCacheSideFailure(err error) bool {
+	return errors.Is(err, ErrCacheResponseFailed) || errors.Is(err, ErrUpdateCacheMetadata)
+}
+
 // Will deduplicate cachable requests and otherwise return the bypassed upstream response.
 // IMPORTANT: Remember to close data streams!
 func (f *fetcher) dedupFetch(req *http.Request, key cache.CacheKey, clientHd *headers.HeaderDirectives) (fetched fetchResult, err error) {
@@ -300,7 +307,12 @@ func (f *fetcher) dedupFetch(req *http.Request, key cache.CacheKey, clientHd *he
 		slog.Debug("Request can't be coalesced, fetching upstream...")
 		metrics.Global.Requests.NonCoalescedRequests.Increment()
 
-		return f.fetchUpstream(req, key, clientHd)
+		fetched, err := f.fetchUpstream(req, key, clientHd)
+		if err != nil && req.Method == http.MethodGet && isCacheSideFailure(err) {
+			slog.Warn("Cache-side failure, falling back to direct fetch", "url", req.URL, "error", err)
+			return f.fetchDirectlyFromUpstream(req)
+		}
+		return fetched, err
 	}
 
 	originalClientHd := *clientHd // Copy the original client headers so the shared requests don't get a modified version
@@ -312,6 +324,10 @@ func (f *fetcher) dedupFetch(req *http.Request, key cache.CacheKey, clientHd *he
 	if err != nil {
 		if errors.Is(err, ErrNotCacheable) {
 			slog.Debug("Request was not cacheable in singleflight, falling back to direct fetch", "url", req.URL)
+			return f.fetchDirectlyFromUpstream(req)
+		}
+		if isCacheSideFailure(err) {
+			slog.Warn("Cache-side failure, falling back to direct fetch", "url", req.URL, "error", err)
 			return f.fetchDirectlyFromUpstream(req)
 		}
 		return fetchResult{}, err
